@@ -434,6 +434,14 @@ KEY_FORMS = [
     ("block", "u8", ["1", "2"], "{ let q = $; q + 1 }", "{ let q = v; q + 1 }"),
     ("twice", "u8", ["1", "2"], "$ + $", "v + v"),
     ("paren", "u8", ["9", "4"], "($ % 4)", "(v % 4)"),
+    # aggregate literals as keys: an array hashes with its length prefix, whatever its elements are
+    ("array_of", "u8", ["7", "10"], "[$ % 3, $ / 3]", "[v % 3, v / 3]"),
+    ("array_of_paren", "u8", ["7", "10"], "([$ % 3, $ / 3, 1])", "([v % 3, v / 3, 1])"),
+    ("array_repeat", "u8", ["7", "10"], "[$ % 3; 2]", "[v % 3; 2]"),
+    ("nested_tuple", "u8", ["7", "10"], "(($ % 3, [$ / 3]), 0u8)", "((v % 3, [v / 3]), 0u8)"),
+    ("str_key", "&'static str", ["\"ab\"", "\"c\""], "$.trim()", "v.trim()"),
+    ("string_key", "u8", ["7", "10"], "::std::format!(\"{}\", $ % 3)", "::std::format!(\"{}\", v % 3)"),
+    ("option_key", "u8", ["7", "0"], "::core::num::NonZeroU8::new($)", "::core::num::NonZeroU8::new(v)"),
 ]
 
 
